@@ -2,6 +2,7 @@ package engine
 
 import (
 	"fmt"
+	"os"
 	"go/types"
 	"sort"
 	"strings"
@@ -231,6 +232,27 @@ func (w *World) VerifyFunc(key string) *Unit {
 			if fr.mutated[p] {
 				v = fr.ensureObj(v, st, p.Name())
 			}
+			if _, isSlice := t.Underlying().(*types.Slice); isSlice && (fr.mutated[p] || fr.mutatedParams[p]) {
+				// A3/A4 guard: writing the elements of a slice received by value changes memory the caller can
+				// see; the value semantics used here would hide that, so it is an obligation that cannot be discharged
+				// unless the contract declares it (`modifies <param>`).
+				declared := false
+				if sp != nil {
+					for _, m := range sp.Modifies {
+						if rootIdent(m) == p.Name() {
+							declared = true
+						}
+					}
+				}
+				if !declared {
+					var pr []string
+					if sp != nil {
+						pr = sp.Props
+					}
+					vc.curPos = fr.pos(fn.Pos())
+					vc.oblige(key, "frame", "no-inplace-write-to-"+p.Name(), pr, "true", "(= 0 1)")
+				}
+			}
 			fr.env[p] = v
 		}
 	}
@@ -348,6 +370,9 @@ func (w *World) VerifyFunc(key string) *Unit {
 		c := v.Loc.Cell
 		final := retState.cells[c]
 		init := entry.cells[c]
+		if os.Getenv("GOVC_DEBUG") != "" {
+			fmt.Fprintf(os.Stderr, "frame %s %s: init=%.60s final=%.60s\n", key, p.Name(), init, final)
+		}
 		if final == init {
 			continue
 		}
@@ -465,6 +490,17 @@ func (w *World) addAxioms(vc *VC) {
 				}
 			}
 			if !relevant {
+				// axioms about pure external functions: relevant once that function's symbol is declared
+				for _, q := range qualifiedCalls(ax.Expr) {
+					suffix := "_" + sanitize(q)
+					for d := range vc.declOf {
+						if strings.HasPrefix(d, "pure_") && strings.HasSuffix(d, suffix) {
+							relevant = true
+						}
+					}
+				}
+			}
+			if !relevant {
 				continue
 			}
 			done[ax] = true
@@ -502,6 +538,9 @@ func (w *World) UnitKeys() []string {
 		}
 		if s.Kind == "closure" {
 			continue // verified inlined into the parent
+		}
+		if f := w.Funcs[k]; f != nil && f.Parent() != nil && len(f.FreeVars) > 0 {
+			continue // closures with captured variables are verified inlined into the parent
 		}
 		ks = append(ks, k)
 	}
@@ -603,5 +642,48 @@ func (w *World) InitUnits() []string {
 		}
 	}
 	sort.Strings(out)
+	return out
+}
+
+
+// qualifiedCalls lists the pkg.Name functions called in an expression.
+func qualifiedCalls(e spec.Expr) []string {
+	var out []string
+	var walk func(e spec.Expr)
+	walk = func(e spec.Expr) {
+		switch x := e.(type) {
+		case *spec.Call:
+			if sel, ok := x.Fun.(*spec.Select); ok {
+				if id, ok := sel.X.(*spec.Ident); ok {
+					out = append(out, id.Name+"."+sel.Name)
+				}
+			}
+			for _, a := range x.Args {
+				walk(a)
+			}
+		case *spec.Binary:
+			walk(x.L)
+			walk(x.R)
+		case *spec.Unary:
+			walk(x.X)
+		case *spec.Quant:
+			walk(x.Body)
+		case *spec.Cond:
+			walk(x.C)
+			walk(x.T)
+			walk(x.E)
+		case *spec.Let:
+			walk(x.Val)
+			walk(x.Body)
+		case *spec.Old:
+			walk(x.X)
+		case *spec.Index:
+			walk(x.X)
+			walk(x.I)
+		case *spec.Select:
+			walk(x.X)
+		}
+	}
+	walk(e)
 	return out
 }
